@@ -26,7 +26,17 @@ def expr(draw, args, depth):
     if depth == 0 or draw(st.integers(0, 3)) == 0:
         name = draw(st.sampled_from(sorted(args)))
         return dict(t='arg', name=name, shape=args[name]['shape'])
-    op = draw(st.sampled_from(['add', 'mul', 'scale', 'pow', 'sum', 'index', 'sin', 'outer', 'contract', 'addconst', 'where']))
+    op = draw(st.sampled_from(['add', 'mul', 'scale', 'pow', 'sum', 'index', 'sin', 'outer', 'contract', 'addconst', 'where', 'mirror']))
+    if op == 'mirror':
+        # a non-commutative node whose two operands are the same expression of two different arguments of equal shape: swapping the arguments mirrors it
+        pairs = [(m, n) for m in sorted(args) for n in sorted(args) if m != n and args[m]['shape'] == args[n]['shape']]
+        if pairs:
+            m, n = draw(st.sampled_from(pairs))
+            wrap = draw(st.sampled_from(['none', 'sin', 'scale']))
+            def side(name):
+                leaf = dict(t='arg', name=name, shape=args[name]['shape'])
+                return leaf if wrap == 'none' else dict(t='sin', a=leaf, shape=leaf['shape']) if wrap == 'sin' else dict(t='scale', a=leaf, c=-.5, shape=leaf['shape'])
+            return dict(t='mirror', a=side(m), b=side(n), op=draw(st.sampled_from(['arctan2', 'pow'])), shape=args[m]['shape'])
     a = draw(expr(args, depth - 1))
     if op == 'add' or op == 'mul':
         b = draw(expr(args, depth - 1))
@@ -65,7 +75,7 @@ def fix_shapes(e):
         s = list(e['a']['shape']); del s[e['axis']]; e['shape'] = s
     elif t in ('add', 'mul'):
         e['shape'] = e['a']['shape'] if e['a']['shape'] else e['b']['shape']
-    elif t in ('scale', 'addconst', 'pow', 'sin', 'where'):
+    elif t in ('scale', 'addconst', 'pow', 'sin', 'where', 'mirror'):
         e['shape'] = e['a']['shape']
     elif t == 'index': e['shape'] = e['a']['shape'][1:]
     elif t == 'outer': e['shape'] = e['a']['shape'] + e['b']['shape']
@@ -93,6 +103,10 @@ def ev(e, A, np=numpy):
         b = ev(e['b'], A)
         return a[(...,) + (None,) * numpy.ndim(b)] * b
     if t == 'contract': return numpy.sum(a * numpy.array(e['w']), axis=-1)
+    if t == 'mirror':
+        b = ev(e['b'], A)
+        ha, hb = .25 * a ** 2 + 1., .25 * b ** 2 + 1.      # positive operands: smooth, and far from the branch cut
+        return numpy.arctan2(ha, hb) if e['op'] == 'arctan2' else numpy.power(ha, hb)
     raise NotImplementedError(t)
 
 
@@ -102,7 +116,7 @@ def uses(e, name):
 
 
 def polynomial(e):
-    if e['t'] in ('sin', 'where'): return False
+    if e['t'] in ('sin', 'where', 'mirror'): return False
     return all(polynomial(e[k]) for k in ('a', 'b') if k in e)
 
 
@@ -132,6 +146,10 @@ def cases(draw, tier):
         else:
             k = int(numpy.prod(args[n]['shape'])) if args[n]['shape'] else 1
             repl.append([n, dict(kind='const', value=[draw(st.sampled_from(V)) for _ in range(k)])])
+    swaps = [(m, n) for m in names for n in names if m < n and args[m]['shape'] == args[n]['shape']]
+    if swaps and draw(st.integers(0, 3)) == 0:
+        m, n = draw(st.sampled_from(swaps))
+        repl = [[m, dict(kind='arg', name=n)], [n, dict(kind='arg', name=m)]]      # a plain simultaneous swap
     return dict(args=args, f=f, repl=repl, spelling=draw(st.sampled_from(['dict', 'string', 'strings', 'pairs', 'argkeys', 'argvalues', 'mixed'])), integral=draw(st.integers(0, 3)) == 0,
                 direction=[draw(st.sampled_from(V)) for _ in range(12)], wrt=draw(st.sampled_from(names)), bad=draw(st.sampled_from(['leading-axis', 'scalar', 'length1', 'transposed', 'dtype-complex', 'dtype-float-for-int', 'repl-shape'])))
 
@@ -289,6 +307,19 @@ def check(case, rec):
                     rec.label('rejected:' + bad)
                 else:
                     raise Violation('bad-argument-accepted', f'argument {n} of shape {v.shape} given a value of shape {numpy.shape(wrong)} dtype {numpy.asarray(wrong).dtype}: evaluated to {numpy.asarray(r).tolist()}', where='accepted:' + bad)
+                # the same for a function that is compiled once and called repeatedly (as the solvers do): the check belongs to every call, not to the first
+                from nutils import evaluable
+                compiled = evaluable.compile(target.as_evaluable_array)
+                first = numpy.asarray(compiled(dict(A)))
+                try:
+                    r = compiled({**A, n: wrong})
+                except Exception:
+                    rec.label('rejected-on-later-call:' + bad)
+                else:
+                    raise Violation('bad-argument-accepted', f'compiled function, second call: argument {n} of shape {v.shape} given a value of shape {numpy.shape(wrong)} dtype {numpy.asarray(wrong).dtype}: evaluated to {numpy.asarray(r).tolist()}', where='accepted-later-call:' + bad)
+                again = numpy.asarray(compiled(dict(A)))
+                if again.shape != first.shape or not numpy.array_equal(again, first, equal_nan=True):
+                    raise Violation('eval', f'compiled function gives {again.tolist()} after a rejected call, {first.tolist()} before', where='eval:after-rejection')
             if bad == 'dtype-float-for-int':
                 m = function.Argument('m', (2,), dtype=int)
                 try:
@@ -324,7 +355,7 @@ def _degree(e):
 def _show(e):
     t = e['t']
     if t == 'arg': return e['name']
-    if t in ('add', 'mul', 'outer'): return f'{t}({_show(e["a"])},{_show(e["b"])})'
+    if t in ('add', 'mul', 'outer', 'mirror'): return f'{t if t != "mirror" else e["op"] + "*"}({_show(e["a"])},{_show(e["b"])})'
     extra = {'scale': 'c', 'addconst': 'c', 'pow': 'e', 'sum': 'axis', 'index': 'i'}.get(t)
     return f'{t}({_show(e["a"])}' + (f',{e[extra]}' if extra else '') + ')'
 
